@@ -346,6 +346,16 @@ PanicOut(s, a, hook, m) ==
   LET r == Finish(s, a, ResPanic("scripted"), <<>>)
   IN  R(r.s, << HExitEv(a, hook, m, "panic", 0) >> \o r.evs)
 
+\* another select branch wins while on_run is parked: the on_run future is dropped, and with it a
+\* nested operation it was awaiting (cancelled ask: its wait-for edge goes away with the future)
+DropRun(s, a) ==
+  LET A == s.A[a]
+      s1 == IF A.hop # 0
+              THEN LET t == SetO(Withdraw(s, A.hop), A.hop, [ph |-> "dropped"])
+                   IN  SetA(IF s.O[A.hop].kind \in AskKinds THEN ClearEdge(t, a) ELSE t, a, [hop |-> 0])
+              ELSE s
+  IN  R(s1, << [e |-> "RunDrop", a |-> a, inst |-> A.inst] >>)
+
 \* a hook parked on its gate receives the directive `dir` (a hook outcome)
 ExitHook(s, a, dir) ==
   LET A == s.A[a] IN
@@ -387,7 +397,7 @@ ExitHook(s, a, dir) ==
   ELSE \* "Run": the select is parked with the on_run future alive; the branches are polled in order
        IF A.term \/ Strong(s, a) = 0 \/ A.mbox # <<>> THEN
             \* another branch wins: the on_run future is dropped unfinished
-            Then(R(s, << [e |-> "RunDrop", a |-> a, inst |-> A.inst] >>), LAMBDA t : SelectPart(t, a))
+            Then(DropRun(s, a), LAMBDA t : SelectPart(t, a))
        ELSE LET pe == << [e |-> "RunPoll", a |-> a, inst |-> A.inst],
                          [e |-> "RunEnd", a |-> a, inst |-> A.inst, out |-> dir] >> IN
             IF dir = "true" THEN
@@ -400,7 +410,7 @@ ExitHook(s, a, dir) ==
             ELSE LET r == Finish(s, a, ResPanic("scripted"), <<>>) IN R(r.s, pe \o r.evs)
 
 \* a hook parked on its gate is told to perform a nested op on handle h
-NestOp(s, a, kind, h, d) ==
+NestOp0(s, a, kind, h, d) ==
   LET callee == s.H[h].a IN
   IF kind \in AskKinds /\ WouldDeadlock(s, a, callee)
     THEN LET cyc == CycleOf(s.wf, a, callee)
@@ -413,6 +423,18 @@ NestOp(s, a, kind, h, d) ==
              r  == FirstPoll(SetA(s1, a, [hop |-> o]), o)
          IN  r
 
+\* inside on_run the operation is issued by a poll of the on_run future (logged as RunPoll)
+NestOp(s, a, kind, h, d) ==
+  LET r == NestOp0(s, a, kind, h, d) IN
+  IF s.A[a].pc # "Run" THEN r
+  ELSE LET r1 == R(r.s, << [e |-> "RunPoll", a |-> a, inst |-> s.A[a].inst] >> \o r.evs)
+           B  == r.s.A[a]
+       IN  \* the operation may have woken the actor's own task (a message, stop request or kill sent to
+           \* itself): the select is polled again in the same burst and the branch before on_run wins
+           IF B.pc = "Run" /\ (B.term \/ Strong(r.s, a) = 0 \/ B.mbox # <<>>)
+             THEN Then(Then(r1, LAMBDA t : DropRun(t, a)), LAMBDA t : SelectPart(t, a))
+             ELSE r1
+
 OutsOf(pc) == IF pc = "Start" THEN StartOuts ELSE IF pc = "Handler" THEN HandlerOuts
               ELSE IF pc = "Stop" THEN StopOuts ELSE IF pc = "Run" THEN RunOuts ELSE {}
 
@@ -421,7 +443,7 @@ Woken(s, a) ==
   LET A == s.A[a] IN
   \/ A.pc = "Init"
   \/ A.pc \in {"Run","Idle"} /\ (A.term \/ Strong(s, a) = 0 \/ A.mbox # <<>>)
-  \/ A.pc \in {"Start","Handler","Stop"} /\ A.hop # 0 /\ Pollable(s, A.hop)
+  \/ A.pc \in {"Start","Handler","Stop","Run"} /\ A.hop # 0 /\ Pollable(s, A.hop)
 
 -----------------------------------------------------------------------------
 (* commands *)
@@ -447,6 +469,8 @@ CmdEnabled(s, cmd) ==
        [] cmd.c = "nest"  ->
             LET A == s.A[cmd.a] IN
             /\ A.sp /\ A.pc \in NestHooks /\ A.hop = 0 /\ cmd.kind \in NestKinds
+            \* an on_run future only gets to act when the two branches before it are pending
+            /\ (A.pc = "Run" => ~(A.term \/ Strong(s, cmd.a) = 0 \/ A.mbox # <<>>))
             /\ s.H[cmd.h].k = "s" /\ s.nextOp <= MaxOps /\ s.nextM <= MaxMsg
             /\ cmd.kind \in KindsOf(s.H[cmd.h].vk)
             /\ (cmd.kind \in TimedKinds => cmd.d \in Timeouts /\ s.now + cmd.d <= MaxTime)
@@ -496,10 +520,16 @@ DoRaw(s, cmd) ==
          IF A.pc = "Init" THEN
               R(SetA(s, a, [pc |-> "Start"]),
                 << [e |-> "HEnter", a |-> a, hook |-> "start", m |-> 0, killed |-> FALSE, n |-> 0] >>)
-         ELSE IF A.hop # 0 THEN PollOp(s, A.hop)       \* the hook resumes iff its nested op completes
+         ELSE IF A.pc = "Run" /\ (A.term \/ Strong(s, a) = 0 \/ A.mbox # <<>>) /\ cmd.dir = "none" THEN
+              Then(DropRun(s, a), LAMBDA t : SelectPart(t, a))
+         ELSE IF A.hop # 0 THEN                        \* the hook resumes iff its nested op completes
+              IF A.pc = "Run"
+                THEN LET r == PollOp(s, A.hop)
+                     IN  R(r.s, << [e |-> "RunPoll", a |-> a, inst |-> A.inst] >> \o r.evs)
+                ELSE PollOp(s, A.hop)
          ELSE IF cmd.dir # "none" THEN ExitHook(s, a, cmd.dir)
          ELSE IF A.pc = "Run" THEN
-              Then(R(s, << [e |-> "RunDrop", a |-> a, inst |-> A.inst] >>), LAMBDA t : SelectPart(t, a))
+              Then(DropRun(s, a), LAMBDA t : SelectPart(t, a))
          ELSE SelectPart(s, a)                         \* "Idle" woken
     [] cmd.c = "nest"  -> NestOp(s, cmd.a, cmd.kind, cmd.h, cmd.d)
     [] cmd.c = "advance" -> R([s EXCEPT !.now = @ + cmd.d], << [e |-> "Advance", now |-> s.now + cmd.d] >>)
